@@ -144,7 +144,12 @@ func shapeOf(e parser.Expr) string {
 			if x.Duration {
 				a := math.Abs(x.Val)
 				if int64(math.Round(a*1e9))/1000000 != int64(math.Round(a*1000)) {
-					set("durlit-float-trunc")
+					if a*1e9 >= 1<<53 {
+						// float64 seconds cannot hold millisecond precision beyond 2^53 ns
+						set("durlit-float-seconds-precision")
+					} else {
+						set("durlit-float-trunc") // fixed by 08a939fd28: must not occur any more
+					}
 				}
 			}
 		}
@@ -366,6 +371,7 @@ func main() {
 		`sum by ("without") (foo)`, `sum by ("nan") (foo)`, `a + on("inf") b`, `a * on(b) group_left("Without") c`,
 		`foo offset 0.0001`, `foo[1.0000001]`, `foo[5m:1.0004]`, `foo offset -0.0001`, `foo[5m:] offset 1.0000001`,
 		`1s1ms`, `-1s3ms`, `foo > 1s5ms`, // fixed (08a939fd28): regression cases
+		`34546d21h26m45s22ms`, `foo * -34546d21h26m45s22ms`,
 		`foo @ 9007199254740.993`, `foo @ 4503599627370.4`, `foo[5m:] @ -4503599627370.4`,
 		`a + fill_left(0) fill_right(-0) b`,
 	}
@@ -375,7 +381,7 @@ func main() {
 	}
 	for _, s := range textCorpus {
 		for i := 0; i < 16; i++ {
-			if f.Tier == "quick" && i != 0 && i != 7 && i != 15 && i != int(f.Seed%16) {
+			if f.Tier == "quick" && i != 0 && i != 15 && i != int(f.Seed%16) {
 				continue
 			}
 			runText(s, optsOf(i), "corpus")
@@ -383,7 +389,7 @@ func main() {
 	}
 
 	// 2. generated ASTs
-	n := f.Count(700, 60000)
+	n := f.Count(350, 40000)
 	var printed []string
 	for i := 0; i < n; i++ {
 		r := gen.Fork(f.Seed, i)
@@ -399,7 +405,7 @@ func main() {
 	}
 
 	// 3. totality: mutated corpus / printed texts and random token soups
-	m := f.Count(2500, 200000)
+	m := f.Count(1500, 150000)
 	for i := 0; i < m; i++ {
 		r := gen.Fork(f.Seed, 1000000+i)
 		o := optsOf(r.Intn(16))
